@@ -16,3 +16,9 @@ func RaceSyncOff() {}
 
 func poolRelease(p unsafe.Pointer) {}
 func poolAcquire(p unsafe.Pointer) {}
+
+func bootRelease() {}
+func bootAcquire() {}
+
+func runRelease() {}
+func runAcquire() {}
